@@ -629,11 +629,22 @@ func (enc *Encoder) encodeStream() ([]byte, error) {
 			enc.histoImageBuf = make([]uint32, histoImageSize)
 		}
 		histoImage := enc.histoImageBuf
+		maxIndex := 0
 		for i, s := range symbols {
 			if i < histoImageSize {
 				histoImage[i] = uint32(s) << 8
+				if int(s) >= maxIndex {
+					maxIndex = int(s) + 1
+				}
 			}
 		}
+		// The decoder derives the number of Huffman groups from the largest
+		// index found in the histogram image. The remap pass of
+		// GetHistoImageSymbols can leave trailing clusters without any tile,
+		// so only store the groups that are actually addressable, matching
+		// the C reference (histogram_image_size = max_index).
+		numHistos = maxIndex
+		huffCodes = huffCodes[:numHistos]
 
 		// Optimize sampling: try coarser tiling if histogram image is uniform.
 		optimizedBits := optimizeSampling(histoImage, currentWidth, height,
